@@ -20,7 +20,7 @@ ANCHORS = ["decaylanguage.dec.dec:DecFileParser._add_charge_conjugate_decays", "
            "decaylanguage.dec.dec:DecFileParser._add_decays_to_be_copied"]
 WORKERS = {"quick": 4, "thorough": 16}
 WTESTS = {"groups": ['parse'], "tests": ['tests/dec'], "counts": ["C01.parse."]}
-REQUIRED = {"source-mother-declared-three-times": 5, "refused-then-registered-then-parsed": 5, "orientation:forward": 20, "orientation:reverse": 20, "alias-alias-pair": 20, "self-pair": 5, "unknown-daughter": 20, "self-conjugate-daughter": 20,
+REQUIRED = {"copydecay-onto-a-name-with-its-own-block-in-front-of-the-file": 5, "refused-parse-with-the-switch-off-then-parsed-with-it-on": 5, "source-mother-declared-three-times": 5, "refused-then-registered-then-parsed": 5, "orientation:forward": 20, "orientation:reverse": 20, "alias-alias-pair": 20, "self-pair": 5, "unknown-daughter": 20, "self-conjugate-daughter": 20,
             "aliased-daughter": 20, "source-from-CopyDecay": 10, "cdecay-without-source": 10, "decay+cdecay-one-name": 10, "decay+cdecay>=2-names": 5,
             "chargeconj-statements:1-2": 10, "chargeconj-statements>=6": 5, "switch-off:>3-tables+applicable": 10, "cdecay-before-source-block": 10,
             "chargeconj-after-use": 10, "tables>=4": 20, "photos-and-params-in-source": 20, "corpus-cdecay-statements": 100, "two-aliases-of-a-self-conjugate-particle": 5, "two-copies-of-one-source": 5, "switch:off-then-on-same-instance": 20, "switch:on-queried-then-off-same-instance": 20, "decay-block-empty+cdecay-same-name": 3, "real-name-pair": 20, "alias-paired-with-plain-name": 10}
